@@ -29,6 +29,22 @@ def canon_table(g):
     return rows
 
 
+def tables_close(a, b, rel=1e-9):
+    """row-wise equality of canonical tables up to float noise (the sample radius is taken from the FIRST cell's area, which differs
+    between cells in the last bits)"""
+    if len(a) != len(b):
+        return False
+    for (ba, va), (bb, vb) in zip(a, b):
+        if ba != bb or len(va) != len(vb):
+            return False
+        for (ka, xa), (kb, xb) in zip(va, vb):
+            if ka != kb or (xa is None) != (xb is None):
+                return False
+            if xa is not None and abs(xa - xb) > rel * max(1.0, abs(xa), abs(xb)):
+                return False
+    return True
+
+
 def check_map(ctx, traces, area, kind, ar, t, w_frac, res, stream, backends):
     import geopandas as gpd
     import numpy as np
@@ -66,6 +82,17 @@ def check_map(ctx, traces, area, kind, ar, t, w_frac, res, stream, backends):
             res.disagreements.append(Disagreement(stream, dict(case, step="precursor_grid"), "same table as the grid it was built from", "differs", True,
                                                   "sampling on the produced grid passed as precursor_grid gives different cell values"))
             return
+        # a precursor grid the user has reordered / filtered (index labels no longer 0..n-1 in order): every cell keeps ITS values
+        for label, sel in (("reversed", slice(None, None, -1)), ("every_other", slice(1, None, 2))):
+            pg = g[["geometry"]].iloc[sel].copy()
+            if len(pg) == 0:
+                continue
+            with joblib.parallel_config(backend="threading"):
+                sub = net.contour_grid(precursor_grid=pg)
+            if not tables_close(canon_table(sub), ref[sel]):
+                res.disagreements.append(Disagreement(stream, dict(case, step=f"precursor_grid_{label}"), "each cell keeps the values computed for that cell", "differs", True,
+                                                      f"a {label} precursor grid (non-default index) gets other cells' values / NaN"))
+                return
     except Exception as e:
         res.disagreements.append(Disagreement(stream, dict(case, step="precursor_grid"), "table", f"{type(e).__name__}: {str(e)[:160]}", True, "contour_grid(precursor_grid=...) raised"))
         return
